@@ -345,6 +345,30 @@ func genC09(r *Rng, tier string, i int) map[string]any {
 		case 1:
 			pos = len(t.rows)
 		}
+		if file != "agency.txt" && len(t.rows) > 0 && r.Bool() {
+			// a rejected twin of a neighbouring valid row (same owner, same keys, a sequence number at, below or above
+			// the neighbour's) instead of the free-standing template row: whatever per-trip, per-shape or per-id
+			// bookkeeping the parser keeps sees a row that looks like it belongs
+			nb := t.rows[minInt(pos, len(t.rows)-1)]
+			if pos > 0 && r.Bool() {
+				nb = t.rows[pos-1]
+			}
+			row = append([]string{}, nb...)
+			for ci, h := range t.header {
+				if h == "stop_sequence" || h == "shape_pt_sequence" {
+					if q, err := strconv.Atoi(row[ci]); err == nil {
+						row[ci] = fmt.Sprintf("%d", []int{q, 0, maxInt(0, q-1-r.Intn(5)), q + 1 + r.Intn(5), 1000}[r.Intn(5)])
+					}
+				}
+			}
+			for col, val := range b.cells {
+				for ci, h := range t.header {
+					if h == col {
+						row[ci] = val
+					}
+				}
+			}
+		}
 		// "any number of such rows": a run of 1-3 copies of the same rejected row, consecutively
 		run := 1
 		if r.P(1, 2) {
@@ -508,4 +532,11 @@ func init() {
 		return &staticProp{id: "C11", nQuick: 2000, nThor: 80000, oracle: oracleC11, gen: genC11,
 			rule: "feeds with calendar-only, calendar_dates-only and combined services, calendar ranges of several shapes (one day, end before start, across a year end and a leap day, ending on days on which a generated zone changes its offset), exception rows before / inside / after the calendar range (also on offset-change days) in shuffled order, unknown exception types, invalid dates, one third of the cases with messy rows; calendar.txt or calendar_dates.txt absent in 2 of 5 cases; agency zones from {New_York, London, Kolkata, UTC, Lord_Howe, unknown}; distinct = distinct input JSON; non-trivial = at least two services"}
 	}
+}
+
+func maxInt(a, b int) int {
+	if a > b {
+		return a
+	}
+	return b
 }
